@@ -22,7 +22,7 @@ def Twin (s : Layers) (u : UFile) : Prop :=
 
 /-! ### what `fileIO` does to the addressed handle and object -/
 
-theorem obj_setObj_same (m : MemFs) (i : ObjId) (d : FData) (hi : i < m.objs.length) : (m.setObj i d).obj i = d := by
+theorem obj_setObj_same (m : MemFs) (i : Nat) (d : FData) (hi : i < m.objs.length) : (m.setObj i d).obj i = d := by
   unfold MemFs.setObj MemFs.obj
   simp [List.getD_eq_getElem?_getD, hi]
 
